@@ -576,6 +576,39 @@ pub fn generate(s: &mut Session, thorough: bool) -> bool {
         let (ws, ps) = b.event(&mut rng, &wires, noise, true);
         mirror_case(s, "mirror", &ws, &ps, &mut mtotal, &mut worst);
     }
+    // (iv-b) mirror with flat-topped pad clouds: two to four adjacent pads carrying exactly the same
+    // waveform (saturation, wide clouds). A strict local-maximum test sees no hit on a plateau on
+    // either side of the mirror; a test that is strict on one side only reports the plateau at one of
+    // its ends and is not mirror symmetric (seed C13-4). Distinct clouds keep distinct amplitudes, so
+    // the known tie of finding F8 (equal pad-HIT amplitudes) does not arise.
+    {
+        let shapes: [&[f64]; 8] = [
+            &[0.4, 1.0, 1.0, 0.3], &[0.3, 1.0, 1.0, 1.0, 0.45], &[1.0, 1.0], &[0.5, 1.0, 1.0], &[1.0, 1.0, 0.5],
+            &[0.2, 0.6, 1.0, 1.0, 0.6, 0.25], &[0.35, 1.0, 1.0, 1.0, 1.0, 0.3], &[0.45, 1.0, 0.35],
+        ];
+        for i in 0..(if thorough { 400 } else { 48 }) {
+            let mut ws = empty_wires();
+            let mut ps = empty_pads();
+            let len = 100usize;
+            let nw = 1 + rng.below(3) as usize;
+            for j in 0..nw {
+                let w = (rng.below(n as u64) as usize + 40 * j) % n;
+                let k = 10 + rng.below(60) as usize;
+                let a = 200.0 + 100.0 * (i % 7) as f64 + 37.0 * j as f64;
+                ws[w] = Some(b.wire_signal(&mut rng, len, &[(k, a)], 0.0));
+                let col = verif_wire_to_pad_column(w);
+                let shape = shapes[(i + j) % shapes.len()];
+                let row0 = 1 + rng.below((TPC_PAD_ROWS - shape.len() - 2) as u64) as usize;
+                let amp = 900.0 + 53.0 * i as f64 + 11.0 * j as f64;
+                for (d, f) in shape.iter().enumerate() {
+                    let slot = &mut ps[col][row0 + d];
+                    let sig = slot.get_or_insert_with(|| vec![0.0; len]);
+                    pulse_into(sig, k, amp * f, &b.pad_resp);
+                }
+            }
+            mirror_case(s, "mirror-plateau", &ws, &ps, &mut mtotal, &mut worst);
+        }
+    }
     s.notes.insert("mirror_base_avalanches".into(), mtotal.into());
     s.notes.insert("mirror_worst_z_error_m".into(), worst.into());
 
